@@ -21,8 +21,8 @@ Definition wne_ok (cr : cursor) (i : Z) : Prop :=
   (c_prevWordNoExtend cr = -1 -> c_prevWord cr = WB_None /\ c_prevPrevWord cr = WB_None) /\
   (i = 0 -> c_word cr = WB_None).
 
-Lemma step_fields cr i r next :
-  let cr' := fst (fst (step cr i r next)) in
+Lemma step_fields cr i r next aft :
+  let cr' := fst (fst (step cr i r next aft)) in
   c_prevWordNoExtend cr' = (if negb (wbq (c_word cr) WB_ExtendFormat) then i - 1 else c_prevWordNoExtend cr)
   /\ c_prevWord cr' = (if negb (wbq (c_word cr) WB_ExtendFormat) then c_word cr else c_prevWord cr)
   /\ c_prevPrevWord cr' = (if negb (wbq (c_word cr) WB_ExtendFormat) then c_prevWord cr else c_prevPrevWord cr)
@@ -37,10 +37,10 @@ Proof.
   destruct (line_decision _ _ _ _ _ _ _ _ _ _); cbn; auto.
 Qed.
 
-Lemma step_remove cr i r next k :
-  snd (step cr i r next) = Some k ->
-  k = c_prevWordNoExtend (fst (fst (step cr i r next)))
-  /\ c_prevPrevWord (fst (fst (step cr i r next))) <> WB_None.
+Lemma step_remove cr i r next aft k :
+  snd (step cr i r next aft) = Some k ->
+  k = c_prevWordNoExtend (fst (fst (step cr i r next aft)))
+  /\ c_prevPrevWord (fst (fst (step cr i r next aft))) <> WB_None.
 Proof.
   unfold step. cbv zeta.
   destruct (update_picto _ _ _) as [picto gb11].
@@ -59,10 +59,10 @@ Proof.
     intros H; inversion H; subst; (split; [reflexivity | apply Hpp; reflexivity]).
 Qed.
 
-Lemma wne_ok_step cr i r next : 0 <= i -> wne_ok cr i -> wne_ok (fst (fst (step cr i r next))) (i + 1).
+Lemma wne_ok_step cr i r next aft : 0 <= i -> wne_ok cr i -> wne_ok (fst (fst (step cr i r next aft))) (i + 1).
 Proof.
   intros Hi (Hr & Hn & H0).
-  destruct (step_fields cr i r next) as (E1 & E2 & E3 & E4).
+  destruct (step_fields cr i r next aft) as (E1 & E2 & E3 & E4).
   unfold wne_ok. rewrite E1, E2, E3, E4.
   destruct (wbq (c_word cr) WB_ExtendFormat) eqn:Hef; cbn iota beta delta [negb].
   - split; [lia|]. split; [exact Hn |]. intros Hc. exfalso. lia.
@@ -71,13 +71,13 @@ Proof.
     apply Hn. lia.
 Qed.
 
-Lemma step_remove_range cr i r next k :
-  0 <= i -> wne_ok cr i -> snd (step cr i r next) = Some k -> 0 <= k < i.
+Lemma step_remove_range cr i r next aft k :
+  0 <= i -> wne_ok cr i -> snd (step cr i r next aft) = Some k -> 0 <= k < i.
 Proof.
   intros Hi Hok Hs.
-  destruct (step_remove cr i r next k Hs) as (Hk & Hpp).
-  destruct (wne_ok_step cr i r next Hi Hok) as (Hr & Hn & _).
-  destruct (step_fields cr i r next) as (E1 & _).
+  destruct (step_remove cr i r next aft k Hs) as (Hk & Hpp).
+  destruct (wne_ok_step cr i r next aft Hi Hok) as (Hr & Hn & _).
+  destruct (step_fields cr i r next aft) as (E1 & _).
   destruct Hok as (Hr0 & _).
   rewrite <- Hk in *.
   assert (k <> -1). { intros E. destruct (Hn E) as (_ & Hx). contradiction. }
@@ -90,19 +90,19 @@ Lemma loop_total : forall rest cr i done,
   exists attrs, loop cr i rest done = Ok attrs /\ length attrs = (length done + length rest + 1)%nat.
 Proof.
   induction rest as [|r rest IH]; intros cr i done Hi Hok.
-  - cbn [loop]. destruct (step cr i obs_psep obs_nul) as [[cr' a] rm] eqn:Hs.
+  - cbn [loop]. destruct (step cr i obs_psep obs_nul (o_lb obs_nul)) as [[cr' a] rm] eqn:Hs.
     destruct rm as [k|].
-    + assert (Hk : 0 <= k < i) by (apply (step_remove_range cr i obs_psep obs_nul); [assumption..| rewrite Hs; reflexivity]).
+    + assert (Hk : 0 <= k < i) by (apply (step_remove_range cr i obs_psep obs_nul (o_lb obs_nul)); [assumption..| rewrite Hs; reflexivity]).
       destruct (Z.ltb_spec k 0); [lia|]. destruct (Z.leb_spec i k); [lia|]. cbn [orb].
       eexists; split; [reflexivity|]. rewrite app_length, clear_word_length. cbn. lia.
     + eexists; split; [reflexivity|]. rewrite app_length. cbn. lia.
   - cbn [loop].
     set (next := match rest with [] => obs_psep | n :: _ => n end).
-    destruct (step cr i r next) as [[cr' a] rm] eqn:Hs.
+    destruct (step cr i r next (after_marks r rest)) as [[cr' a] rm] eqn:Hs.
     assert (Hok' : wne_ok cr' (i + 1)).
-    { pose proof (wne_ok_step cr i r next Hi Hok) as H. rewrite Hs in H. exact H. }
+    { pose proof (wne_ok_step cr i r next (after_marks r rest) Hi Hok) as H. rewrite Hs in H. exact H. }
     destruct rm as [k|].
-    + assert (Hk : 0 <= k < i) by (apply (step_remove_range cr i r next); [assumption..| rewrite Hs; reflexivity]).
+    + assert (Hk : 0 <= k < i) by (apply (step_remove_range cr i r next (after_marks r rest)); [assumption..| rewrite Hs; reflexivity]).
       destruct (Z.ltb_spec k 0); [lia|]. destruct (Z.leb_spec i k); [lia|]. cbn [orb].
       destruct (IH cr' (i + 1) (clear_word done (Z.to_nat k) ++ [a]) ltac:(lia) Hok') as (attrs & E & L).
       exists attrs. split; [exact E|]. rewrite L, app_length, clear_word_length. cbn. lia.
@@ -132,20 +132,20 @@ Qed.
 
 (* ---- the attribute list as a trace: a family that does not depend on the write-back ---- *)
 Section Trace.
-  Context {S B : Type} (proj : cursor -> S) (sstep : S -> obs -> obs -> S * B) (f : attr -> B).
+  Context {S B : Type} (proj : cursor -> S) (sstep : S -> obs -> obs -> lbc -> S * B) (f : attr -> B).
   Variable Inv : cursor -> Z -> Prop.
   Hypothesis f_clear : forall a, f (mkAttr (a_line a) (a_mandatory a) (a_grapheme a) false) = f a.
-  Hypothesis inv_step : forall cr i r next, 0 <= i -> Inv cr i -> Inv (fst (fst (step cr i r next))) (i + 1).
-  Hypothesis step_proj : forall cr i r next, 0 <= i -> Inv cr i ->
-      proj (fst (fst (step cr i r next))) = fst (sstep (proj cr) r next)
-      /\ f (snd (fst (step cr i r next))) = snd (sstep (proj cr) r next).
+  Hypothesis inv_step : forall cr i r next aft, 0 <= i -> Inv cr i -> Inv (fst (fst (step cr i r next aft))) (i + 1).
+  Hypothesis step_proj : forall cr i r next aft, 0 <= i -> Inv cr i ->
+      proj (fst (fst (step cr i r next aft))) = fst (sstep (proj cr) r next aft)
+      /\ f (snd (fst (step cr i r next aft))) = snd (sstep (proj cr) r next aft).
 
   Fixpoint srun (s : S) (rest : list obs) : list B :=
     match rest with
-    | [] => [snd (sstep s obs_psep obs_nul)]
+    | [] => [snd (sstep s obs_psep obs_nul (o_lb obs_nul))]
     | r :: rest' =>
         let next := match rest' with [] => obs_psep | n :: _ => n end in
-        snd (sstep s r next) :: srun (fst (sstep s r next)) rest'
+        snd (sstep s r next (after_marks r rest')) :: srun (fst (sstep s r next (after_marks r rest'))) rest'
     end.
 
   Lemma loop_trace : forall rest cr i done attrs,
@@ -153,17 +153,17 @@ Section Trace.
     loop cr i rest done = Ok attrs -> map f attrs = map f done ++ srun (proj cr) rest.
   Proof.
     induction rest as [|r rest IH]; intros cr i done attrs Hi HI.
-    - cbn [loop srun]. pose proof (step_proj cr i obs_psep obs_nul Hi HI) as (_ & Hf).
-      destruct (step cr i obs_psep obs_nul) as [[cr' a] rm]. cbn [fst snd] in Hf.
+    - cbn [loop srun]. pose proof (step_proj cr i obs_psep obs_nul (o_lb obs_nul) Hi HI) as (_ & Hf).
+      destruct (step cr i obs_psep obs_nul (o_lb obs_nul)) as [[cr' a] rm]. cbn [fst snd] in Hf.
       destruct rm as [k|].
       + destruct (_ || _); [discriminate|]. intros H; inversion H; subst.
         rewrite map_app, (clear_word_map f f_clear). cbn. rewrite Hf. reflexivity.
       + intros H; inversion H; subst. rewrite map_app. cbn. rewrite Hf. reflexivity.
     - cbn [loop srun].
       set (next := match rest with [] => obs_psep | n :: _ => n end).
-      pose proof (step_proj cr i r next Hi HI) as (Hp & Hf).
-      pose proof (inv_step cr i r next Hi HI) as HI'.
-      destruct (step cr i r next) as [[cr' a] rm]. cbn [fst snd] in Hp, Hf, HI'.
+      pose proof (step_proj cr i r next (after_marks r rest) Hi HI) as (Hp & Hf).
+      pose proof (inv_step cr i r next (after_marks r rest) Hi HI) as HI'.
+      destruct (step cr i r next (after_marks r rest)) as [[cr' a] rm]. cbn [fst snd] in Hp, Hf, HI'.
       destruct rm as [k|].
       + destruct (_ || _); [discriminate|]. intros H. apply IH in H; [|lia|exact HI'].
         rewrite H, map_app, (clear_word_map f f_clear), Hp, <- app_assoc. cbn. rewrite Hf. reflexivity.
